@@ -23,8 +23,46 @@ def exc_info(e):
     return {'type': type(e).__name__, 'msg': str(e)[:300], 'where': where}
 
 
-def write_file(workdir, text, name='inst.txt'):
+HOSTILE_NAMES = ['Upper Case', '100%', 'x-pl2', 'a=b', "it's", '%d_%s', '{0}', '#1', '\u00fcn\u00ef', 'CAPS', 'semi;colon',
+                 '-twopl', '~user', '$HOME', 'dot.dir.txt']
+PATH_SPELLINGS = {}
+
+
+def write_file(workdir, text, name='inst.txt', plain=False):
+    """Writes an instance file and returns the path to pass to -f.  One file in five gets a path a temp-dir
+    campaign never produces: directory or file names with capitals, blanks, '%', '=', option look-alikes,
+    non-ASCII letters; redundant components ('./', '//', 'sub/..'); a symbolic link followed by '..' (the
+    textually collapsed path names ANOTHER file).  The choice is a function of the text, so replays agree."""
+    import zlib
+    h = zlib.crc32((name + text).encode('utf-8', 'replace'))
+    kind = 'plain'
     path = os.path.join(workdir, name)
+    if not plain:
+        frag = HOSTILE_NAMES[(h >> 8) % len(HOSTILE_NAMES)]
+        m = h % 20
+        if m == 0 or m == 1:
+            kind = 'hostile_directory_name'
+            os.makedirs(os.path.join(workdir, frag), exist_ok=True)
+            path = os.path.join(workdir, frag, name)
+        elif m == 2:
+            kind = 'hostile_file_name'
+            path = os.path.join(workdir, frag + ' ' + name.replace('.txt', '.TXT'))
+        elif m == 3:
+            kind = 'redundant_components'
+            os.makedirs(os.path.join(workdir, 'sub'), exist_ok=True)
+            path = workdir + '//./sub/../' + name
+        elif m == 4 and os.path.exists(os.path.join(workdir, name)):
+            # workdir/lnk -> workdir/real/deep ; the file is workdir/real/<name>, reached as workdir/lnk/../<name>;
+            # workdir/<name> (an earlier case's file) is what a textual normalisation of that path would name
+            kind = 'symlink_then_dotdot'
+            os.makedirs(os.path.join(workdir, 'real', 'deep'), exist_ok=True)
+            if not os.path.islink(os.path.join(workdir, 'lnk')):
+                os.symlink(os.path.join(workdir, 'real', 'deep'), os.path.join(workdir, 'lnk'))
+            with open(os.path.join(workdir, 'real', name), 'w') as f:
+                f.write(text)
+            PATH_SPELLINGS[kind] = PATH_SPELLINGS.get(kind, 0) + 1
+            return os.path.join(workdir, 'lnk', '..', name)
+    PATH_SPELLINGS[kind] = PATH_SPELLINGS.get(kind, 0) + 1
     with open(path, 'w') as f:
         f.write(text)
     return path
@@ -64,7 +102,7 @@ def run_lp(spec, opts, workdir, rng, inject=True, noise=True, second_side=None,
         n = max(len(stale_text), len(text))
         stale_text = stale_text + ' ' * (n - len(stale_text)) if not stale_text.endswith('\n') else stale_text[:-1] + ' ' * (n - len(stale_text)) + '\n'
         text = text[:-1] + ' ' * (n - len(text)) + '\n' if text.endswith('\n') else text + ' ' * (n - len(text))
-        p0 = write_file(workdir, stale_text)
+        p0 = write_file(workdir, stale_text, plain=True)
         st0 = os.stat(p0)
         try:
             pre = Solver(['-f', p0, '-na', str(spec['na'])] + (['-twopl'] if opts['twopl'] else []))
@@ -72,7 +110,7 @@ def run_lp(spec, opts, workdir, rng, inject=True, noise=True, second_side=None,
             pre.get_results()
         except BaseException:
             pass
-    path = write_file(workdir, text)
+    path = write_file(workdir, text, plain=stale_text is not None)
     if stale_text is not None:
         os.utime(path, ns=(st0.st_atime_ns, st0.st_mtime_ns))     # exactly the old time stamps (as cp -p would leave)
     if argv is None:
